@@ -231,9 +231,13 @@ def enabled(ctx: Ctx) -> list:
     calls = []
     if not ctx.frames:
         # module level
-        for i, (name, row, declared) in enumerate(sc.funcs):
+        for d in sc.extra.get("decls", ()):
+            if not any(f["name"] == d[0] for f in ctx.funcs):
+                return [["decl", d[0]]]
+        for fdef in sc.funcs:
+            name, row, declared = fdef[0], fdef[1], fdef[2]
             if not any(f["name"] == name for f in ctx.funcs):
-                calls.append(["def", name, row, declared])
+                calls.append(["def", name, row, declared] + ([fdef[3]] if len(fdef) > 3 else []))
                 break  # functions are defined in the listed order
         return calls
     top = ctx.top
@@ -304,10 +308,11 @@ def enabled(ctx: Ctx) -> list:
             for fi, f in enumerate(ctx.funcs):
                 if f["out"] is None:
                     continue  # outputs unknown: cannot be called yet
-                for c in _args_choices(ctx, f["in"], len(f["in"])):
-                    calls.append(["call", fi, [w.id for w in c]])
-                if "loadfn" in sc.extra.get("fn_ops", ()):
-                    calls.append(["loadfn", fi])
+                for ii, (targs, irow, orow) in enumerate(f["insts"]):
+                    for c in _args_choices(ctx, irow, len(irow)):
+                        calls.append(["call", fi, [w.id for w in c], ii])
+                    if "loadfn" in sc.extra.get("fn_ops", ()):
+                        calls.append(["loadfn", fi, ii])
             if "callind" in sc.extra.get("fn_ops", ()):
                 for w in ctx.visible():
                     if w.ty[0] == "G":
@@ -430,10 +435,26 @@ def apply(ctx: Ctx, call) -> None:
     sc = ctx.sc
     ctx.calls += 1
     if kind == "def":
-        _, name, row, declared = call
-        f = ctx.root.define_function(name, [T.build_type(t) for t in row], [T.build_type(t) for t in declared] if declared is not None else None)
-        ctx.funcs.append({"name": name, "node": f.parent_node, "in": row, "out": declared, "b": f, "open": True})
+        name, row, declared = call[1], call[2], call[3]
+        params = call[4] if len(call) > 4 else []
+        f = ctx.root.define_function(
+            name, [T.build_type(t) for t in row], [T.build_type(t) for t in declared] if declared is not None else None,
+            [T.build_param(p) for p in params] or None,
+        )
+        fd = {"name": name, "node": f.parent_node, "in": row, "out": declared, "b": f, "open": True, "params": params}
+        fd["insts"] = _insts(sc, fd)
+        ctx.funcs.append(fd)
         ctx.push("func", f, row, barrier=True, want=declared, fidx=len(ctx.funcs) - 1)
+        if params:
+            ctx.features.add("polymorphic-function")
+        return
+    if kind == "decl":
+        d = next(x for x in sc.extra["decls"] if x[0] == call[1])
+        poly = d[1]
+        node = ctx.root.declare_function(d[0], T.build_type(poly))
+        fd = {"name": d[0], "node": node, "in": poly[2][1], "out": poly[2][2], "b": None, "open": False, "params": poly[1], "insts": list(d[2])}
+        ctx.funcs.append(fd)
+        ctx.features.add("declared-function")
         return
     top = ctx.top
     b = top.b
@@ -534,19 +555,28 @@ def apply(ctx: Ctx, call) -> None:
         _close_block(ctx, call)
     elif kind == "call":
         f = ctx.funcs[call[1]]
+        targs, irow, orow = f["insts"][call[3]]
         ws = [ctx.wires[i] for i in call[2]]
-        n = b.call(f["node"], *[w.h for w in ws])
+        kw = {}
+        if f["params"]:
+            kw = dict(instantiation=T.build_type(["G", irow, orow, []]), type_args=[T.build_arg(a) for a in targs])
+            ctx.features.add("polymorphic-call")
+        n = b.call(f["node"], *[w.h for w in ws], **kw)
         _consume(ctx, ws)
         top.nodes.append(n)
-        for i, t in enumerate(f["out"]):
+        for i, t in enumerate(orow):
             ctx.new_wire(t, n.out(i), n)
-        ctx.handles.append(("call", n, len(f["out"])))
+        ctx.handles.append(("call", n, len(orow)))
         ctx.features.add("call")
     elif kind == "loadfn":
         f = ctx.funcs[call[1]]
-        n = b.load_function(f["node"])
+        targs, irow, orow = f["insts"][call[2]]
+        kw = {}
+        if f["params"]:
+            kw = dict(instantiation=T.build_type(["G", irow, orow, []]), type_args=[T.build_arg(a) for a in targs])
+        n = b.load_function(f["node"], **kw)
         top.nodes.append(n)
-        ctx.new_wire(["G", f["in"], f["out"], []], n.out(0), n)
+        ctx.new_wire(["G", irow, orow, []], n.out(0), n)
         ctx.features.add("load-function")
     elif kind == "callind":
         fw = ctx.wires[call[1]]
@@ -560,6 +590,28 @@ def apply(ctx: Ctx, call) -> None:
         ctx.features.add("call-indirect")
     else:
         raise AssertionError(call)
+
+
+def _subst_v(t, targs):
+    """Substitute type variables (Type args only) in a spec."""
+    if isinstance(t, list) and t and t[0] == "V":
+        return targs[t[1]][1]
+    if isinstance(t, list):
+        return [_subst_v(x, targs) for x in t]
+    return t
+
+
+def _insts(sc, fd):
+    """Instantiations offered for calls of a function: [(type args, in row, out row)]."""
+    if fd["out"] is None:
+        return []
+    if not fd["params"]:
+        return [([], fd["in"], fd["out"])]
+    out = []
+    for ty in sc.extra.get("inst_types", [B, I]):
+        targs = [["TA", ty] for _ in fd["params"]]
+        out.append((targs, _subst_v(fd["in"], targs), _subst_v(fd["out"], targs)))
+    return out
 
 
 def _consume(ctx, ws):
@@ -599,6 +651,7 @@ def _close_df(ctx: Ctx, ws):
         f = ctx.funcs[top.info["fidx"]]
         f["out"] = row
         f["open"] = False
+        f["insts"] = _insts(ctx.sc, f)
         ctx.frames.pop()
     elif top.kind == "case":
         info = top.info
@@ -692,7 +745,7 @@ def _close_block(ctx: Ctx, call):
 
 
 def complete(ctx: Ctx) -> bool:
-    return not ctx.frames and (ctx.sc.root != "module" or len(ctx.funcs) == len(ctx.sc.funcs))
+    return not ctx.frames and (ctx.sc.root != "module" or len(ctx.funcs) == len(ctx.sc.funcs) + len(ctx.sc.extra.get("decls", ())))
 
 
 def run(sc: Scenario, program) -> Ctx:
